@@ -185,8 +185,8 @@ CLAIMED = {
               "frequencies, lengths, positions, position-ranged term frequencies, phrase frequencies (EVERY term list, "
               "immediate repetitions included, EVERY position range) and BM25 scores (every query) equal the "
               "parent's answers re-indexed by the composed key, with the parent's corpus statistics (closed; score theorems "
-              "carry the Reals axioms via Flocq). NOT proved: element access and pandas' key normalisation (replicated "
-              "with numpy in the harness): decided "
+              "carry the Reals axioms via Flocq); element access returns each row's distinct terms and length "
+              "(C06_element_access). NOT proved: pandas' key normalisation (replicated with numpy in the harness): decided "
               "three-way by the check (real arr[key] / take / copy / DataFrame ops followed by every query kind vs model "
               "vs spec; slices of every step sign, masks, int arrays sorted/unsorted/duplicate/negative, depth 1..3)."),
         design_ref="DESIGN.md 7 (C06)",
